@@ -179,7 +179,7 @@ CHECKS["C10"] = dict(
     technique="differential execution of generated scenarios in three worker interpreters (normal JIT, NUMBA_BOUNDSCHECK=1, NUMBA_DISABLE_JIT=1) with exception classification and result comparison",
     text="Scenarios (fit_transform on X, transform on X') from the generators of 19 kernel-backed estimator families (edge-biased: empty / "
          "one-element items, radius beyond the sequence, epsilon-pruned EM cells, coo_initial_memory='1k', tiny matrices), the distance "
-         "functions and transport_plan are executed in three persistent interpreters; an IndexError / UnboundLocalError / NameError in a "
+         "functions, transport_plan and the LOT kernels (called directly) are executed in three persistent interpreters; an IndexError / UnboundLocalError / NameError in a "
          "checked mode, a result that differs from the normal compiled run, or a dying interpreter is a violation. Exploration.",
     note="Bounds checking observes only the accesses made on generated inputs. Interpreted-mode-only exceptions of other types (LZ hashing "
          "overflows in pure Python) make that scenario inconclusive for that mode and are counted. Wasserstein scenarios pass explicit "
